@@ -294,6 +294,12 @@ impl StreamAlphaNode {
 
     /// Get current time in milliseconds since epoch
     fn current_time_ms() -> u64 {
+        #[cfg(rre_verif)]
+        {
+            if let Some(t) = verif_clock::get() {
+                return t;
+            }
+        }
         SystemTime::now()
             .duration_since(UNIX_EPOCH)
             .unwrap()
@@ -315,6 +321,27 @@ impl StreamAlphaNode {
             newest_event_timestamp: self.events.back().map(|e| e.metadata.timestamp),
             window_duration_ms: self.window.as_ref().map(|w| w.duration.as_millis() as u64),
         }
+    }
+}
+
+/// Verification hook (compiled only with `--cfg rre_verif`): a thread-local override of the
+/// clock read by `StreamAlphaNode::current_time_ms`. With the cfg off this module does not
+/// exist and the node reads the system clock exactly as before.
+#[cfg(rre_verif)]
+pub mod verif_clock {
+    use std::cell::Cell;
+
+    thread_local! {
+        static NOW_MS: Cell<Option<u64>> = const { Cell::new(None) };
+    }
+
+    /// `Some(t)`: `current_time_ms` returns `t` on this thread; `None`: system clock.
+    pub fn set(now_ms: Option<u64>) {
+        NOW_MS.with(|c| c.set(now_ms));
+    }
+
+    pub fn get() -> Option<u64> {
+        NOW_MS.with(|c| c.get())
     }
 }
 
